@@ -79,18 +79,17 @@ Definition loop_body (acc : S * list R) (b : B) : S * list R :=
   let (state, results) := acc in
   let (state', r) := step state b in (state', results ++ [r]).
 Definition jit_run_client (copy : S -> S) (sh : Sh) (bs : list B) (cin : Cin) : Out * list R :=
-  let state := copy (init sh cin) in
-  let (state, results) := fold_left loop_body bs (state, []) in
-  (final sh state, results).
+  (* run_client is GENERATED (gen: jit_run_client_gen); jit_client_init = copy o client_init *)
+  jit_run_client_gen (fun sh cin => copy (init sh cin)) step final sh bs cin.
 Definition jit_run (copy : S -> S) (sh : Sh) (clients : list client) : list result :=
   map (fun c => let '(id, bs, cin) := c in
                 let (o, rs) := jit_run_client copy sh bs cin in (Some id, o, rs)) clients.
 
-(* ---- debug backend: the same loop without jit and without the copy *)
+(* ---- debug backend: the same loop without jit and without the copy (body of the
+   per-client loop GENERATED: debug_run_client_gen) *)
 Definition debug_run (sh : Sh) (clients : list client) : list result :=
   map (fun c => let '(id, bs, cin) := c in
-                let (state, results) := fold_left loop_body bs (init sh cin, []) in
-                (Some id, final sh state, results)) clients.
+                let (o, rs) := debug_run_client_gen init step final sh bs cin in (Some id, o, rs)) clients.
 
 (* ---- _blockify ---- *)
 Definition pclient : Type := option Id * list B * Cin.
@@ -162,10 +161,13 @@ Definition p_loop_body (acc : list S * list (list R)) (mb : list B * list bool) 
   let (p_state', p_step_result) := split (map3 lane_step p_state p_batch p_mask) in
   (p_state', p_step_results ++ [p_step_result]).
 
+(* run_block is GENERATED (pmap_run_block_gen); jax.pmap(f) is modelled as f mapped over the
+   device axis: p_client_init / p_client_step / p_client_final below *)
 Definition run_block (sh : Sh) (blk : block) : list Out * list (list R) :=
-  let p_state := map (init sh) (blk_cin blk) in
-  let (p_state, p_step_results) := fold_left p_loop_body (blk_mb blk) (p_state, []) in
-  (map (final sh) p_state, p_step_results).
+  pmap_run_block_gen (fun sh cins => map (init sh) cins)
+                     (fun p_state p_batch p_mask => split (map3 lane_step p_state p_batch p_mask))
+                     (fun sh p_state => map (final sh) p_state)
+                     sh (blk_cin blk) (blk_mb blk).
 
 (* the body of `for block in _blockify(...)`: run the block, then split / filter /
    truncate / yield -- pmap_emit is GENERATED from that code (gen/Gen_for_each_client.v) *)
@@ -197,22 +199,27 @@ Record tstate := mk_ts { ts_cur : option Z; ts_stack : list (option Z) }.
 Definition ts0 : tstate := mk_ts None [].
 Definition default_backend : Z := 0.
 
+(* the transitions are GENERATED from the source: ctx_enter / ctx_exit / ctx_exit_on_exception
+   (the context manager) and choice_get (BackendChoice.get) *)
 Definition exec_op (o : bop) (s : tstate) : tstate * option Z :=
   match o with
   | BSet b => (mk_ts b (ts_stack s), None)
   | BSetBad => (s, None)
-  | BEnter b => (mk_ts b (ts_cur s :: ts_stack s), None)
-  | BEnterBad => (mk_ts (ts_cur s) (ts_stack s), None)
-  | BExit | BExitExc =>
+  | BEnter b => let (cur, old) := ctx_enter b (ts_cur s) in (mk_ts cur (old :: ts_stack s), None)
+  | BEnterBad =>      (* old saved, the set raises before assigning; `finally` (if any) runs *)
+      let old := snd (ctx_enter None (ts_cur s)) in
+      (mk_ts (if ctx_exit_on_exception then ctx_exit old (ts_cur s) else ts_cur s) (ts_stack s), None)
+  | BExit =>
       match ts_stack s with
-      | old :: st => (mk_ts old st, None)
+      | old :: st => (mk_ts (ctx_exit old (ts_cur s)) st, None)
       | [] => (s, None)
       end
-  | BGet =>
-      match ts_cur s with
-      | Some b => (s, Some b)
-      | None => (mk_ts (Some default_backend) (ts_stack s), Some default_backend)
+  | BExitExc =>
+      match ts_stack s with
+      | old :: st => (mk_ts (if ctx_exit_on_exception then ctx_exit old (ts_cur s) else ts_cur s) st, None)
+      | [] => (s, None)
       end
+  | BGet => let (cur, r) := choice_get default_backend (ts_cur s) in (mk_ts cur (ts_stack s), r)
   end.
 
 Definition gstate := nat -> tstate.
